@@ -61,6 +61,18 @@ func (f FnGen) record(i int, keyKind int) jv.Val {
 	if Chance(t, "nokey", 1, 12) {
 		ms = ms[1:]
 	}
+	// "t": a short unsorted array of the key's kind, for key expressions that
+	// themselves sort or select (re-entrant use of sort_by, max_by, map ...)
+	nt := rapid.IntRange(0, 3).Draw(t, "ntags")
+	tags := make([]jv.Val, nt)
+	for j := range tags {
+		if keyKind == 0 || keyKind == 4 {
+			tags[j] = jv.VInt(int64(rapid.IntRange(0, 9).Draw(t, "ntag")))
+		} else {
+			tags[j] = jv.VStr(Pick(t, "stag", []string{"z", "y", "b", "a", "n", "m", "é", "", "aa"}))
+		}
+	}
+	ms = append(ms, jv.Member{K: "t", V: jv.VArr(tags)})
 	return jv.VObj(ms)
 }
 
@@ -216,7 +228,22 @@ func (f FnGen) Val(kind string, subject string) jv.Val {
 // RefExpr draws the body of an expression reference for records {k, id}.
 func (f FnGen) RefExpr() ast.Expr {
 	t := f.T
-	switch rapid.IntRange(0, 11).Draw(t, "refkind") {
+	tags := ast.F("t")
+	self := ast.Ref(ast.Cur())
+	first := ast.Step{Kind: ast.SIndex, Index: 0}
+	switch rapid.IntRange(0, 19).Draw(t, "refkind") {
+	case 12: // key expressions that use a function with an expression reference again
+		return ast.Call("sort_by", ast.A(tags), self).With(first)
+	case 13:
+		return ast.Call(Pick(t, "reentrant", []string{"max_by", "min_by"}), ast.A(tags), self)
+	case 14:
+		return ast.Call("map", self, ast.A(tags)).With(ast.Step{Kind: ast.SIndex, Index: -1})
+	case 15:
+		return ast.Call("join", ast.A(ast.RawS("")), ast.A(ast.Call("sort_by", ast.A(ast.Call("map", ast.Ref(ast.Call("to_string", ast.A(ast.Cur()))), ast.A(tags))), self)))
+	case 16:
+		return ast.Call("length", ast.A(ast.Call("group_by", ast.A(tags), ast.Ref(ast.Call("to_string", ast.A(ast.Cur()))))))
+	case 17:
+		return ast.Call(Pick(t, "plainfn", []string{"sort", "reverse"}), ast.A(tags)).With(first)
 	case 0:
 		return ast.F("id")
 	case 1:
